@@ -71,6 +71,19 @@ def openDb (d : Dir) : Dir × Except OpenErr Unit :=
       ({ d with marker := some (markerMagic ++ [3]), hasJournal0 := true, hasKeyspaces := true, holders := 1,
                 mutations := d.mutations + 1 }, .ok ())
 
+/-- the recover path with the lock taken where the guard is stored, after journal recovery and after
+    the meta tree was opened (seeded change C17-7; kept for the counterexample): recovery cleans up
+    before the refusal -/
+def openDbLateLock (d : Dir) : Dir × Except OpenErr Unit :=
+  match d.marker with
+  | some bytes =>
+    match checkVersion bytes with
+    | .error e => (d, .error e)
+    | .ok () =>
+      if d.locked then ({ d with mutations := d.mutations + 1 }, .error .locked)
+      else ({ d with holders := 1, mutations := d.mutations + 1 }, .ok ())
+  | none => openDb d
+
 inductive HOp | open | clone | drop
   deriving Repr, DecidableEq
 
